@@ -56,6 +56,18 @@ func c19Gen(t *rapid.T) c19Case {
 		}
 		c.Errs = append(c.Errs, e)
 	}
+	// .recoveryScope markers: recovery does not look below a state that carries one. One marker
+	// gives a single marked state (or a few), two markers in different rules give several.
+	for n := rapid.IntRange(0, 2).Draw(t, "scopes"); n > 0; n-- {
+		c.Scope = true
+		nt := c.G.NTs[rapid.IntRange(0, len(c.G.NTs)-1).Draw(t, "scopeNT")]
+		a := nt.Alts[rapid.IntRange(0, len(nt.Alts)-1).Draw(t, "scopeAlt")]
+		if len(a.Parts) == 0 {
+			continue
+		}
+		pos := rapid.IntRange(1, len(a.Parts)).Draw(t, "scopePos")
+		a.Parts = append(a.Parts[:pos:pos], append([]*egPart{{K: "mark", Sym: 99}}, a.Parts[pos:]...)...)
+	}
 	return c
 }
 
